@@ -13,175 +13,120 @@ use metrique::{AppendAndCloseOnDrop, Slot, append_and_close};
 /// in `real_append_and_close_*`; with symbolic orders its drop glue does not finish in CBMC.)
 pub struct Inner {
     pub v: u64,
-    pub slot: Option<Slot<Child>>,
 }
 impl Drop for Inner {
     fn drop(&mut self) {
-        use metrique_core::CloseValue;
-        let slot = self.slot.take().and_then(|s| s.close());
         unsafe {
             CLOSES += 1;
             APPENDS += 1;
             LAST_V = self.v;
-            LAST_SLOT = slot;
         }
     }
 }
 type Owner = P<Inner>;
 
-struct World {
-    owner: Option<Owner>,
-    g1: Option<FlushGuard>,
-    g2: Option<FlushGuard>,
-    f1: Option<ForceFlushGuard>,
-    f2: Option<ForceFlushGuard>,
-    guards_created: u8,
-    guards_dropped: u8,
-    force_dropped: bool,
-    last_v: u64,
+fn appended() -> (u32, u32, u64) {
+    unsafe { (CLOSES, APPENDS, LAST_V) }
 }
 
-impl World {
-    fn expected_appended(&self) -> bool {
-        self.owner.is_none() && (self.guards_dropped == self.guards_created || self.force_dropped)
-    }
-    fn check(&self) {
-        let (closes, appends, last_v) = unsafe { (CLOSES, APPENDS, LAST_V) };
-        if self.expected_appended() {
-            assert!(appends == 1 && closes == 1, "appended (and closed) exactly once, as soon as owner and guards allow it");
-            assert!(last_v == self.last_v, "the appended entry reflects the last mutation made through the owner");
-        } else {
-            assert!(appends == 0 && closes == 0, "never appended or closed earlier than allowed");
-        }
-    }
-    /// one symbolic step: drop one of the live things, or create a guard from the owner, or mutate through the owner
-    fn step(&mut self) {
-        let op: u8 = kani::any();
-        kani::assume(op < 8);
-        match op {
-            0 => {
-                self.owner = None;
-            }
-            1 => {
-                if self.g1.take().is_some() {
-                    self.guards_dropped += 1;
-                }
-            }
-            2 => {
-                if self.g2.take().is_some() {
-                    self.guards_dropped += 1;
-                }
-            }
-            3 => {
-                if self.f1.take().is_some() {
-                    self.force_dropped = true;
-                }
-            }
-            4 => {
-                // guards may be created late, also after a force-flush guard was dropped
-                if let Some(o) = self.owner.as_ref() {
-                    if self.g2.is_none() && self.guards_created < 2 {
-                        self.g2 = Some(o.flush_guard());
-                        self.guards_created += 1;
-                    }
-                }
-            }
-            5 => {
-                // several force-flush guards may exist at once: dropping ANY of them releases the entry
-                if let Some(o) = self.owner.as_ref() {
-                    if self.f2.is_none() {
-                        self.f2 = Some(o.force_flush_guard());
-                    }
-                }
-            }
-            7 => {
-                if self.f2.take().is_some() {
-                    self.force_dropped = true;
-                }
-            }
-            _ => {
-                if let Some(o) = self.owner.as_mut() {
-                    let v: u64 = kani::any();
-                    o.get_mut().v = v;
-                    self.last_v = v;
-                }
-            }
-        }
-        self.check();
+/// after every step: appended exactly once iff the rule allows it, never earlier, never twice
+fn check(owner_gone: bool, guards_alive: u8, force_dropped: bool, last_v: u64) {
+    let (closes, appends, v) = appended();
+    if owner_gone && (guards_alive == 0 || force_dropped) {
+        assert!(appends == 1 && closes == 1, "appended (and closed) exactly once, as soon as owner and guards allow it");
+        assert!(v == last_v, "the appended entry reflects the last mutation made through the owner");
+    } else {
+        assert!(appends == 0 && closes == 0, "never appended or closed earlier than allowed");
     }
 }
 
-fn world(with_g1: bool, with_f1: bool) -> World {
-    reset();
-    let owner: Owner = P::new(Inner { v: 7, slot: None });
-    let g1 = if with_g1 { Some(owner.flush_guard()) } else { None };
-    let f1 = if with_f1 { Some(owner.force_flush_guard()) } else { None };
-    World {
-        owner: Some(owner),
-        g1,
-        g2: None,
-        f1,
-        f2: None,
-        guards_created: with_g1 as u8,
-        guards_dropped: 0,
-        force_dropped: false,
-        last_v: 7,
-    }
-}
-
-// @check C06 quick timeout=1800 mem=14
+// @check C06 quick timeout=2400 mem=24
 // @encodes keep_alive::{Parent::new, new_guard, force_drop_guard, deref_mut, Guard (drop), DropAll::drop} - the reference protocol AppendAndCloseOnDrop delegates to (flush_guard / force_flush_guard are built exactly as AppendAndCloseOnDrop builds them, through verif_hooks)
-// @bounds owner + one flush guard + one force-flush guard alive initially; 3 symbolic steps, each one of: drop owner / drop flush guard 1 / drop flush guard 2 / drop force guard 1 / drop force guard 2 / create a second flush guard / create a second force guard (also after the first was dropped) / mutate through the owner (any u64); checked after every step
-// @oracle appends == closes == 1 exactly from the first moment (owner gone AND (all flush guards gone OR some force guard dropped)), 0 before, never 2; appended value == last mutation
-// @outside drops racing on several threads (Kani is sequential); the AppendAndCloseOnDrop wrapper and handle clones with symbolic orders (fixed-order harnesses real_append_and_close_*); #[metrics]-generated entries
+// @bounds owner + one flush guard + one force-flush guard, value mutated through the owner (any u64); the three are dropped in a solver-chosen order (3 steps, each dropping any of the three that is still alive); checked after every step
+// @oracle appends == closes == 1 exactly from the first moment (owner gone AND (flush guard gone OR force guard dropped)), 0 before, never 2; appended value == last mutation
+// @outside drops racing on several threads (Kani is sequential); the AppendAndCloseOnDrop wrapper with symbolic orders (fixed-order harnesses real_append_and_close_*)
 #[kani::proof]
 #[kani::unwind(3)]
 pub fn drop_orders_owner_guard_force() {
-    let mut w = world(true, true);
-    w.step();
-    w.step();
-    w.step();
-    kani::cover!(unsafe { APPENDS } == 1 && w.g1.is_some(), "appended while a flush guard is still alive (force flush)");
-    kani::cover!(unsafe { APPENDS } == 0 && w.owner.is_none(), "owner gone but entry still held back by a guard");
-    // whatever is still alive is dropped now: afterwards the entry must have been appended exactly once
-    let World { owner, g1, g2, f1, f2, last_v, .. } = w;
-    drop(g1);
-    drop(owner);
-    drop(f1);
-    drop(f2);
-    drop(g2);
-    unsafe {
-        assert!(APPENDS == 1 && CLOSES == 1, "never not at all, never twice");
-        assert!(LAST_V == last_v);
-    }
+    reset();
+    let mut owner_: Owner = P::new(Inner { v: 7 });
+    let v: u64 = kani::any();
+    owner_.get_mut().v = v;
+    let mut g = Some(owner_.flush_guard());
+    let mut f = Some(owner_.force_flush_guard());
+    let mut owner = Some(owner_);
+    let mut force_dropped = false;
+    let mut step = |sel: u8| {
+        match sel {
+            0 => drop(owner.take()),
+            1 => drop(g.take()),
+            _ => {
+                if f.take().is_some() {
+                    force_dropped = true;
+                }
+            }
+        }
+        check(owner.is_none(), g.is_some() as u8, force_dropped, v);
+    };
+    let (s1, s2, s3): (u8, u8, u8) = (kani::any(), kani::any(), kani::any());
+    kani::assume(s1 < 3 && s2 < 3 && s3 < 3);
+    step(s1);
+    step(s2);
+    step(s3);
+    kani::cover!(s1 == 0 && s2 == 2 && s3 == 1, "owner, then force guard, then flush guard");
+    kani::cover!(s1 == 1 && s2 == 2 && s3 == 0, "guards first, owner last");
 }
 
-// @check C06 thorough timeout=7200 mem=30
-// @encodes same as drop_orders_owner_guard_force
-// @bounds owner + flush guard + force guard; 5 symbolic steps
-// @oracle same
+// @check C06 quick timeout=2400 mem=24
+// @encodes keep_alive::{Parent, Guard, DropAll::drop} with TWO force-flush guards
+// @bounds owner + one flush guard + two force-flush guards; the owner is dropped, then a solver-chosen force guard, then the other one, then the flush guard
+// @oracle the entry is appended exactly when the FIRST force-flush guard is dropped (some force guard dropped), whichever of the two it is; nothing changes afterwards
 #[kani::proof]
 #[kani::unwind(3)]
-pub fn drop_orders_5_steps() {
-    let mut w = world(true, true);
-    w.step();
-    w.step();
-    w.step();
-    w.step();
-    w.step();
-    let World { owner, g1, g2, f1, f2, last_v, .. } = w;
-    drop(f1);
-    drop(g2);
+pub fn any_force_guard_releases() {
+    reset();
+    let owner: Owner = P::new(Inner { v: 9 });
+    let g = owner.flush_guard();
+    let mut f1 = Some(owner.force_flush_guard());
+    let mut f2 = Some(owner.force_flush_guard());
     drop(owner);
-    drop(f2);
-    drop(g1);
-    unsafe {
-        assert!(APPENDS == 1 && CLOSES == 1, "never not at all, never twice");
-        assert!(LAST_V == last_v);
-    }
+    check(true, 1, false, 9);
+    let first: bool = kani::any();
+    kani::cover!(first, "first-created force guard dropped first");
+    kani::cover!(!first, "second-created force guard dropped first");
+    if first { drop(f1.take()) } else { drop(f2.take()) }
+    check(true, 1, true, 9);
+    drop(f1.take());
+    drop(f2.take());
+    check(true, 1, true, 9);
+    drop(g);
+    check(true, 0, true, 9);
 }
 
-// @check C06 quick timeout=1800 mem=20
+// @check C06 quick timeout=2400 mem=24
+// @encodes keep_alive::{Parent::new_guard after DropAll::drop, Guard drop}
+// @bounds a force-flush guard is created and dropped while the owner lives; afterwards a flush guard is created (solver decides whether), the owner is dropped, then the late guard
+// @oracle once a force-flush guard has been dropped, the entry is appended when the owner goes - a guard created afterwards cannot hold it back - and exactly once
+#[kani::proof]
+#[kani::unwind(3)]
+pub fn guard_created_after_force_flush() {
+    reset();
+    let mut owner: Owner = P::new(Inner { v: 1 });
+    let f = owner.force_flush_guard();
+    drop(f);
+    check(false, 0, true, 1);
+    let late: bool = kani::any();
+    let g = if late { Some(owner.flush_guard()) } else { None };
+    let v: u64 = kani::any();
+    owner.get_mut().v = v;
+    kani::cover!(late, "a flush guard created after the force flush");
+    drop(owner);
+    check(true, late as u8, true, v);
+    drop(g);
+    check(true, 0, true, v);
+}
+
+// @check C06 quick timeout=2400 mem=24
 // @encodes metrique::append_and_close, AppendAndCloseOnDrop::{flush_guard, deref_mut}, Drop for AppendAndCloseOnDropInner (close + append), RootEntry::write, keep_alive::*
 // @bounds the REAL public wrapper with a hand-written entry and a recording sink; fixed order: mutate (any u64), take a flush guard, drop the owner, drop the guard
 // @oracle nothing appended while the guard lives; exactly one close and one append afterwards, carrying the mutated value
@@ -190,7 +135,7 @@ pub fn drop_orders_5_steps() {
 #[kani::unwind(3)]
 pub fn real_append_and_close_guard_delays() {
     reset();
-    let mut owner: AppendAndCloseOnDrop<Work, RecSink> = append_and_close(Work { v: 0, slot: Slot::new(Child(0)) }, RecSink);
+    let mut owner: AppendAndCloseOnDrop<Plain, RecSink> = append_and_close(Plain { v: 0 }, RecSink);
     let v: u64 = kani::any();
     owner.v = v;
     let g = owner.flush_guard();
@@ -204,7 +149,7 @@ pub fn real_append_and_close_guard_delays() {
     }
 }
 
-// @check C06 quick timeout=1800 mem=20
+// @check C06 quick timeout=2400 mem=24
 // @encodes metrique::append_and_close, AppendAndCloseOnDrop::{flush_guard, force_flush_guard}, Drop for AppendAndCloseOnDropInner, keep_alive::DropAll
 // @bounds the REAL public wrapper; fixed order: flush guard + force-flush guard taken, owner dropped, force guard dropped, flush guard dropped
 // @oracle appended exactly when the force-flush guard is dropped (owner already gone), never again when the flush guard follows
@@ -212,7 +157,7 @@ pub fn real_append_and_close_guard_delays() {
 #[kani::unwind(3)]
 pub fn real_append_and_close_force_flush() {
     reset();
-    let owner: AppendAndCloseOnDrop<Work, RecSink> = append_and_close(Work { v: 3, slot: Slot::new(Child(0)) }, RecSink);
+    let owner: AppendAndCloseOnDrop<Plain, RecSink> = append_and_close(Plain { v: 3 }, RecSink);
     let g = owner.flush_guard();
     let f = owner.force_flush_guard();
     drop(owner);
